@@ -43,6 +43,7 @@ def op (name : String) (j : Json) : Except String (Option Json) := do
     else if r.pairs then pure (some (resPairsJ (residuePairMap r.atoms (specPairs P r))))
     else pure (some (resChainsJ (residueSets r.atoms (specSets P { r with extend := false }))))
   | "backbone_names" => pure (some (.str "NA"))
+  | "contact_defaults" => pure (some (.str "NA"))
   | _ => pure none
 
 end Driver.SpecC
